@@ -170,6 +170,15 @@ fn lossless_view(kind: &str, t: &str) -> Option<Result<String, String>> {
     })
 }
 
+/// outside the C03 grammar although both readers accept it: a whitespace-only continuation line, or
+/// an indented `#` line (a comment for both readers by design; the lossy reader leaves an empty line
+/// in the value where it stood, the lossless one drops it: the blank-line normalisation of C06)
+fn not_c03_wellformed(t: &str) -> bool {
+    t.split('\n').any(|l| {
+        (l.starts_with(' ') || l.starts_with('\t')) && (l.trim().is_empty() || l.trim_start_matches([' ', '\t']).starts_with('#'))
+    })
+}
+
 pub fn handle(op: &str, a: &[&str]) -> Option<Resp> {
     let kind = op.strip_prefix("typed.")?;
     let (t, _e) = match a {
@@ -217,7 +226,7 @@ pub fn handle(op: &str, a: &[&str]) -> Option<Resp> {
                     // the clause is about well-formed input: a whitespace-only continuation line is
                     // not (C03 grammar); there the two readers differ by the documented blank-line
                     // normalisation of C06 (lossy keeps it as an empty line, lossless drops it)
-                    let blank_cont = t.split('\n').any(|l| (l.starts_with(' ') || l.starts_with('\t')) && l.trim().is_empty());
+                    let blank_cont = not_c03_wellformed(&t);
                     if fail.is_none() && !blank_cont {
                         fail = Some(format!("lossless reader shows a different value: {} vs {}", s, v1.show()));
                     }
@@ -234,7 +243,7 @@ pub fn handle(op: &str, a: &[&str]) -> Option<Resp> {
         if let (Ok(v1), Ok(p)) = (&r1, LL::from_str(&t)) {
             let lossless_md5 = p.get("Description-md5");
             let lossy_md5 = v1.structs[0].1.iter().find(|(k, _)| k.eq_ignore_ascii_case("Description-md5")).map(|x| x.1.clone());
-            let blank_cont = t.split('\n').any(|l| (l.starts_with(' ') || l.starts_with('\t')) && l.trim().is_empty());
+            let blank_cont = not_c03_wellformed(&t);
             if lossless_md5 != lossy_md5 && fail.is_none() && !blank_cont {
                 fail = Some(format!(
                     "lossless Package::description_md5() reads field Description-md5 = {:?}; the lossy struct shows {:?}",
@@ -269,7 +278,7 @@ pub fn handle(op: &str, a: &[&str]) -> Option<Resp> {
     // removal record: the Sources / Binaries lists are the LINES of the field (an entry such as
     // `foo_1.0-1 [amd64, i386]` has blanks inside): printed back they are the raw value
     if kind == "removal" {
-        let blank_cont = t.split('\n').any(|l| (l.starts_with(' ') || l.starts_with('\t')) && l.trim().is_empty());
+        let blank_cont = not_c03_wellformed(&t);
         if let (Ok(v1), Ok(p)) = (&r1, LL::from_str(&t)) {
             for key in ["Sources", "Binaries"] {
                 let raw = p.get(key);
@@ -285,7 +294,7 @@ pub fn handle(op: &str, a: &[&str]) -> Option<Resp> {
     // DEP-3 header: the typed author / description are what the lossless view of the same text
     // shows (Author, else From; Description, else Subject) -- on well-formed input
     if kind == "dep3" {
-        let blank_cont = t.split('\n').any(|l| (l.starts_with(' ') || l.starts_with('\t')) && l.trim().is_empty());
+        let blank_cont = not_c03_wellformed(&t);
         if let (Ok(v1), Ok(h)) = (&r1, dep3::lossless::PatchHeader::from_str(&t)) {
             let field = |k: &str| v1.structs[0].1.iter().find(|(kk, _)| kk == k).map(|x| x.1.clone());
             let ll_author = h.author();
@@ -316,9 +325,9 @@ struct KindSpec {
 const KINDS: &[KindSpec] = &[
     KindSpec { kind: "control", structs: &["control.Source", "control.Binary"], comments: true },
     KindSpec { kind: "copyright", structs: &["debiancopyright.Header", "debiancopyright.FilesParagraph", "debiancopyright.LicenseParagraph"], comments: true },
-    KindSpec { kind: "release", structs: &["apt.Release"], comments: false },
-    KindSpec { kind: "source", structs: &["apt.Source"], comments: false },
-    KindSpec { kind: "package", structs: &["apt.Package"], comments: false },
+    KindSpec { kind: "release", structs: &["apt.Release"], comments: true },
+    KindSpec { kind: "source", structs: &["apt.Source"], comments: true },
+    KindSpec { kind: "package", structs: &["apt.Package"], comments: true },
     KindSpec { kind: "removal", structs: &["ftpmaster.Removal"], comments: true },
     KindSpec { kind: "dep3", structs: &["dep3.PatchHeader"], comments: true },
     KindSpec { kind: "repos", structs: &["aptsources.Repository"], comments: true },
